@@ -110,8 +110,96 @@ Proof.
     revert W. induction H as [|c r Hc Hr IHl]; intros W; [reflexivity|].
     apply andb_true_iff in W. destruct W as (Wc & Wr).
     rewrite (Hc Wc). simpl. apply IHl; exact Wr.
-  - destruct mk, mv; try reflexivity.
-  - destruct (String.eqb tn "[]byte"); [reflexivity|]. destruct sl; reflexivity.
   - apply andb_true_iff in W. destruct W as (_ & W).
-    destruct (skind_of_name tu) as [k|]; [|discriminate]. destruct k; reflexivity.
+    destruct mk, mv; try discriminate; reflexivity.
+  - apply andb_true_iff in W. destruct W as (_ & W).
+    destruct (String.eqb tn "[]byte"); [reflexivity|]. destruct sl; [reflexivity|discriminate].
+  - apply andb_true_iff in W. destruct W as (_ & W).
+    destruct (skind_of_name tu) as [k|]; [|discriminate]. destruct k as [|i| | | |]; try reflexivity. destruct i; reflexivity.
+Qed.
+
+(* ---------- nodes without hasc: nothing below them has a length ---------- *)
+Definition benign0 (d : lcdemand) : Prop := d = DAny \/ d = DResult 0%Z.
+
+Lemma existsb_false_forall {A} (f : A -> bool) l : existsb f l = false -> Forall (fun x => f x = false) l.
+Proof.
+  induction l as [|x r IH]; simpl; intros H; constructor.
+  - apply orb_false_iff in H; tauto.
+  - apply IH. apply orb_false_iff in H; tauto.
+Qed.
+
+Lemma scalar_not_ptr k x : scalar_range_ok k x = true ->
+  strip_ptrs 3 x = Some x /\ strip_ptrs 2 x = Some x /\
+  (k <> SString -> match x with VStr _ | VBytes _ _ _ | VSlice _ _ _ | VMap _ _ => False | _ => True end).
+Proof.
+  destruct k, x; simpl; intros H; try discriminate; repeat split; auto; intros N; auto; congruence.
+Qed.
+
+Lemma nohasc_dem fn : forall n, wfn n = true -> n_hasc n = false ->
+  forall v path, wtb n v = true -> benign0 (dem0 fn (nav n v path)) /\ type_bad n path = false.
+Proof.
+  intros n. induction n using node_ind'. intros W HC v path WT.
+  cbn [n_hasc] in HC. subst hc. cbn [wfn] in W.
+  destruct ty.
+  - (* struct *)
+    apply andb_true_iff in W. destruct W as (W & WC). apply andb_true_iff in W. destruct W as (HE & ND).
+    apply eqb_prop in HE. symmetry in HE. apply existsb_false_forall in HE.
+    destruct path as [|seg rest].
+    + split; [|reflexivity]. cbn [nav dem0]. cbn [wtb] in WT.
+      destruct p.
+      * destruct v as [| | | | | | | |[x|]]; try discriminate; [|right; reflexivity].
+        destruct x; try discriminate. left; reflexivity.
+      * destruct v; try discriminate. left; reflexivity.
+    + cbn [nav type_bad]. cbn [wtb] in WT.
+      assert (G2 :
+        (fix go (cs : list node) : bool :=
+           match cs with [] => false | c :: cr => if String.eqb (n_name c) seg then type_bad c rest else go cr end) chld = false).
+      { clear WT ND. revert WC HE. induction H as [|c r Hc Hr IHl]; intros WC HE; [reflexivity|].
+        apply andb_true_iff in WC. destruct WC as (Wc & Wr). inversion HE as [|? ? Hcf Hrf]; subst.
+        destruct (String.eqb (n_name c) seg).
+        - apply (Hc Wc Hcf (zero_val c) rest (wtb_zero c Wc)).
+        - apply IHl; auto. }
+      assert (G : forall fs,
+        (fix go (cs : list node) (vs : list val) {struct cs} : bool :=
+           match cs, vs with [], [] => true | c :: cr, x :: xr => wtb c x && go cr xr | _, _ => false end) chld fs = true ->
+        benign0 (dem0 fn ((fix go (chs : list node) (fs : list val) {struct chs} : navres :=
+           match chs, fs with
+           | c :: cr, f :: fr => if String.eqb (n_name c) seg then nav c f rest else go cr fr
+           | _, _ => NNone WUnknownField
+           end) chld fs))).
+      { clear WT ND G2. revert WC HE. induction H as [|c r Hc Hr IHl]; intros WC HE fs WF.
+        - right; reflexivity.
+        - apply andb_true_iff in WC. destruct WC as (Wc & Wr). inversion HE as [|? ? Hcf Hrf]; subst.
+          destruct fs as [|f fr]; [discriminate|]. apply andb_true_iff in WF. destruct WF as (WFc & WFr).
+          destruct (String.eqb (n_name c) seg).
+          + apply Hc; auto.
+          + apply IHl; auto. }
+      split; [|exact G2].
+      destruct p.
+      * destruct v as [| | | | | | | |[x|]]; try discriminate.
+        -- destruct x; try discriminate. apply G; exact WT.
+        -- right; reflexivity.
+      * destruct v; try discriminate. apply G; exact WT.
+  - (* map: hasc is true *)
+    discriminate W.
+  - discriminate W.
+  - (* basic, not a string *)
+    apply andb_true_iff in W. destruct W as (HE & SK). apply eqb_prop in HE.
+    destruct (skind_of_name tu) as [k|] eqn:EK; [|discriminate].
+    assert (NS : k <> SString).
+    { intros ->. unfold skind_of_name in EK. symmetry in HE.
+      destruct (String.eqb tu "bool"); [discriminate|]. destruct (String.eqb tu "byte"); [discriminate|].
+      destruct (String.eqb tu "float32"); [discriminate|]. destruct (String.eqb tu "float64"); [discriminate|].
+      rewrite HE in EK. destruct (find _ _); discriminate. }
+    cbn [wtb] in WT. rewrite EK in WT.
+    destruct path as [|seg rest]; cbn [nav type_bad dem0]; (split; [|reflexivity]).
+    + destruct p.
+      * destruct v as [| | | | | | | |[x|]]; try discriminate; [|right; reflexivity].
+        destruct (scalar_not_ptr _ _ WT) as (_ & S2 & S3). change (strip_ptrs 3 (VPtr (Some x))) with (strip_ptrs 2 x). rewrite S2.
+        specialize (S3 NS). destruct x; try contradiction; destruct fn; left; reflexivity.
+      * destruct (scalar_not_ptr _ _ WT) as (S1 & _ & S3). rewrite S1.
+        specialize (S3 NS). destruct v; try contradiction; destruct fn; left; reflexivity.
+    + destruct p.
+      * destruct v as [| | | | | | | |[x|]]; try discriminate; [left|right]; reflexivity.
+      * left; reflexivity.
 Qed.
